@@ -18,7 +18,7 @@ from engine.ref import refstruct as rs
 
 PARAMS = {}
 
-FAMILIES = ["bool", "arith", "bv", "ite-bool", "ite-int", "ite-bv", "store", "uf", "times-div"]
+FAMILIES = ["bool", "arith", "bv", "ite-bool", "ite-int", "ite-bv", "store", "uf", "times-div", "str", "int-div", "bv-misc"]
 SERVICES = ["construct", "simplify", "substitute", "freevars", "atoms", "logic", "types", "qf", "size-dag", "nnf", "prenex", "aig",
             "times-distributor", "dagprint-parse"]
 
@@ -28,6 +28,7 @@ def leaves(env):
     m = env.formula_manager
     tm = env.type_manager
     return {"a": m.Symbol("a", T.BOOL), "b": m.Symbol("b", T.BOOL), "i": m.Symbol("i", T.INT), "j": m.Symbol("j", T.INT),
+            "u": m.Symbol("u", T.STRING), "v": m.Symbol("v", T.STRING),
             "x": m.Symbol("x", tm.BVType(8)), "y": m.Symbol("y", tm.BVType(8)), "m": m.Symbol("m", tm.ArrayType(T.INT, T.INT)),
             "f": m.Symbol("f", tm.FunctionType(T.INT, [T.INT, T.INT])), "r": m.Symbol("r", T.REAL), "s": m.Symbol("s", T.REAL)}
 
@@ -91,7 +92,56 @@ def build(env, family, d, share):
             o = t if share else L["j"]
             t = m.Function(L["f"], [t, o])
         return m.LT(t, L["j"])
+    if family == "str":
+        # every string operator, each level using the previous one several times
+        t = L["u"]
+        for k in range(d):
+            o = t if share else L["v"]
+            n = m.StrLength(o)
+            sel = k % 4
+            if sel == 0:
+                t = m.StrReplace(t, o, m.StrCharAt(o, n))
+            elif sel == 1:
+                t = m.StrConcat(m.StrSubstr(t, m.StrIndexOf(t, o, m.Int(0)), n), o)
+            elif sel == 2:
+                t = m.Ite(m.And(m.StrContains(t, o), m.StrPrefixOf(o, t)), t, m.IntToStr(m.Plus(m.StrToInt(t), n)))
+            else:
+                t = m.Ite(m.StrSuffixOf(t, o), m.StrConcat(t, o), t)
+        return m.Equals(t, L["v"])
+    if family == "int-div":
+        t = L["i"]
+        for k in range(d):
+            o = t if share else L["j"]
+            t = m.Div(m.Div(t, L["j"]), o) if k % 2 else m.Plus(m.Div(o, m.Int(3)), t)
+        return m.LT(t, L["j"])
+    if family == "bv-misc":
+        t = L["x"]
+        for k in range(d):
+            o = t if share else L["y"]
+            sel = k % 4
+            if sel == 0:
+                t = m.BVConcat(m.BVExtract(t, 0, 3), m.BVExtract(o, 4, 7))
+            elif sel == 1:
+                t = m.BVUDiv(m.BVRol(t, 1), m.BVRor(o, 2))
+            elif sel == 2:
+                t = m.BVExtract(m.BVMul(m.BVZExt(t, 4), m.BVSExt(o, 4)), 2, 9)
+            else:
+                t = m.Ite(m.BVSLT(t, o), m.BVURem(t, o), m.BVAShr(m.BVNeg(t), m.BVLShl(o, L["y"])))
+        return m.BVULT(t, L["y"])
     raise ValueError(family)
+
+
+def dag_nodes(f):
+    """number of distinct sub-terms, iteratively (this runs inside the stack-depth probe)"""
+    seen = set()
+    todo = [f]
+    while todo:
+        t = todo.pop()
+        if t in seen:
+            continue
+        seen.add(t)
+        todo.extend(t.args())
+    return len(seen)
 
 
 def service(env, name, f):
@@ -102,7 +152,7 @@ def service(env, name, f):
     if name == "simplify":
         return lambda: f.simplify()
     if name == "substitute":
-        return lambda: f.substitute({L["a"]: L["b"], L["i"]: m.Plus(L["j"], m.Int(1)), L["x"]: L["y"]})
+        return lambda: f.substitute({L["a"]: L["b"], L["i"]: m.Plus(L["j"], m.Int(1)), L["x"]: L["y"], L["u"]: m.StrConcat(L["v"], L["v"])})
     if name == "freevars":
         return lambda: f.get_free_variables()
     if name == "atoms":
@@ -135,7 +185,12 @@ def service(env, name, f):
         def run():
             buf = io.StringIO()
             smtlibscript_from_formula(f).serialize(buf, daggify=True)
-            g = SmtLibParser(env).get_script(io.StringIO(buf.getvalue())).get_last_formula()
+            text = buf.getvalue()
+            # the DAG text itself must be linear in the DAG (no operand copied per use)
+            nodes = dag_nodes(f)
+            if len(text) > 120 * nodes + 400:
+                raise Budget("DAG printer wrote %d characters for a DAG of %d nodes" % (len(text), nodes))
+            g = SmtLibParser(env).get_script(io.StringIO(text)).get_last_formula()
             return g
         return run
     raise ValueError(name)
@@ -368,3 +423,138 @@ def h_dag_twin(c2: int, c3: int, c4: int, c5: int, c6: int) -> bool:
     post: _
     """
     return dag_body(c2, c3, c4, c5, c6, True)
+
+
+# ---- self- and cross-nesting of every operator, fully shared: the DAG printer / parser pair -----------------------------------------
+def nest_ops(env):
+    """name -> (sort, builder(t, o)): an operator application of the sort of t that uses t (and o) more than once"""
+    m = env.formula_manager
+    L = leaves(env)
+    i0, one = m.Int(0), m.Int(1)
+    ops = [
+        ("and", "B", lambda t, o: m.And(t, m.Not(o))), ("or", "B", lambda t, o: m.Or(t, m.Not(o))), ("not", "B", lambda t, o: m.Not(m.And(t, o))),
+        ("implies", "B", lambda t, o: m.Implies(t, o)), ("iff", "B", lambda t, o: m.Iff(t, m.Not(o))), ("ite-b", "B", lambda t, o: m.Ite(t, o, m.Not(o))),
+        ("forall", "B", lambda t, o: m.ForAll([L["j"]], m.Or(t, o))), ("exists", "B", lambda t, o: m.Exists([L["b"]], m.And(t, o))),
+        ("lt", "B", lambda t, o: m.LT(m.Ite(t, L["i"], L["j"]), m.Ite(o, L["j"], L["i"]))),
+        ("equals-i", "B", lambda t, o: m.Equals(m.Ite(t, L["i"], L["j"]), m.Ite(o, L["j"], L["i"]))),
+        ("plus", "I", lambda t, o: m.Plus(t, o)), ("minus", "I", lambda t, o: m.Minus(t, m.Plus(o, one))), ("times", "I", lambda t, o: m.Times(t, o)),
+        ("div-int", "I", lambda t, o: m.Div(m.Div(t, L["j"]), o)), ("ite-i", "I", lambda t, o: m.Ite(m.LT(t, o), t, o)),
+        ("uf", "I", lambda t, o: m.Function(L["f"], [t, o])), ("select", "I", lambda t, o: m.Select(m.Store(L["m"], t, o), o)),
+        ("strlen", "I", lambda t, o: m.StrLength(m.StrConcat(m.IntToStr(t), m.IntToStr(o)))),
+        ("strindexof", "I", lambda t, o: m.StrIndexOf(m.IntToStr(t), m.IntToStr(o), t)),
+        ("strtoint", "I", lambda t, o: m.Plus(m.StrToInt(m.IntToStr(t)), m.StrToInt(m.IntToStr(o)))),
+        ("bv2nat", "I", lambda t, o: m.BVToNatural(m.Ite(m.LT(t, o), L["x"], L["y"]))),
+        ("plus-r", "R", lambda t, o: m.Plus(t, o)), ("times-r", "R", lambda t, o: m.Times(t, o)), ("div-r", "R", lambda t, o: m.Div(m.Div(t, L["s"]), o)),
+        ("toreal", "R", lambda t, o: m.Plus(m.ToReal(m.Ite(m.LT(t, o), L["i"], L["j"])), t)), ("pow", "R", lambda t, o: m.Plus(m.Pow(t, m.Real(2)), o)),
+        ("strreplace", "S", lambda t, o: m.StrReplace(t, o, t)), ("strconcat", "S", lambda t, o: m.StrConcat(t, o)),
+        ("strsubstr", "S", lambda t, o: m.StrSubstr(t, m.StrLength(o), m.StrLength(t))), ("strcharat", "S", lambda t, o: m.StrCharAt(m.StrConcat(t, o), i0)),
+        ("inttostr", "S", lambda t, o: m.IntToStr(m.Plus(m.StrLength(t), m.StrLength(o)))),
+        ("strcontains", "S", lambda t, o: m.Ite(m.StrContains(t, o), t, o)), ("strprefixof", "S", lambda t, o: m.Ite(m.StrPrefixOf(t, o), o, t)),
+        ("strsuffixof", "S", lambda t, o: m.Ite(m.StrSuffixOf(o, t), t, o)),
+        ("bvadd", "V", lambda t, o: m.BVAdd(t, o)), ("bvmul", "V", lambda t, o: m.BVMul(t, o)), ("bvsub", "V", lambda t, o: m.BVSub(t, o)),
+        ("bvand", "V", lambda t, o: m.BVAnd(t, m.BVNot(o))), ("bvor", "V", lambda t, o: m.BVOr(t, m.BVNeg(o))), ("bvxor", "V", lambda t, o: m.BVXor(t, o)),
+        ("bvudiv", "V", lambda t, o: m.BVUDiv(t, o)), ("bvurem", "V", lambda t, o: m.BVURem(t, o)), ("bvsdiv", "V", lambda t, o: m.BVSDiv(t, o)),
+        ("bvsrem", "V", lambda t, o: m.BVSRem(t, o)), ("bvlshl", "V", lambda t, o: m.BVLShl(t, o)), ("bvlshr", "V", lambda t, o: m.BVLShr(t, o)),
+        ("bvashr", "V", lambda t, o: m.BVAShr(t, o)), ("bvconcat-extract", "V", lambda t, o: m.BVConcat(m.BVExtract(t, 0, 3), m.BVExtract(o, 4, 7))),
+        ("bvrol-ror", "V", lambda t, o: m.BVXor(m.BVRol(t, 1), m.BVRor(o, 2))), ("bvzext", "V", lambda t, o: m.BVExtract(m.BVZExt(t, 4), 2, 9)),
+        ("bvsext", "V", lambda t, o: m.BVExtract(m.BVAdd(m.BVSExt(t, 4), m.BVSExt(o, 4)), 0, 7)), ("bvcomp", "V", lambda t, o: m.BVConcat(m.BVComp(t, o), m.BVExtract(t, 0, 6))),
+        ("bvult", "V", lambda t, o: m.Ite(m.BVULT(t, o), t, o)), ("bvsle", "V", lambda t, o: m.Ite(m.BVSLE(t, o), o, t)),
+        # a sub-term used both outside and inside a binder
+        ("share-across-forall", "B", lambda t, o: m.And(t, m.ForAll([L["j"]], m.Or(o, m.LT(L["j"], L["i"]))))),
+        ("share-across-exists", "B", lambda t, o: m.Or(m.Not(t), m.Exists([L["b"]], m.And(o, L["b"])))),
+        ("store", "A", lambda t, o: m.Store(t, m.Select(o, L["i"]), m.Select(t, L["j"]))),
+        ("array-eq", "A", lambda t, o: m.Ite(m.Equals(t, o), t, m.Store(o, L["i"], L["j"]))),
+    ]
+    return ops
+
+
+def nest_body(oi, oj, d, twin):
+    with NoTracing():
+        env0 = new_env(dict_model=False)
+        names = [(n, srt) for n, srt, _ in nest_ops(env0)]
+    mode = PARAMS.get("mode", "plain")
+    ci = None
+    for k in range(len(names)):
+        if oi == k:
+            ci = k
+            break
+    if ci is None:
+        return True
+    if names[ci][0].startswith("share-across") != (mode != "plain"):
+        return True                # cross-binder sharing has its own conditions (first operator is the cross-binder one)
+    cj = None
+    if PARAMS.get("self_only"):
+        if oj != ci:
+            return True
+        cj = ci
+    else:
+        for k in range(len(names)):
+            if names[k][1] == names[ci][1] and (mode != "plain" or not names[k][0].startswith("share-across")):
+                if oj == k:
+                    cj = k
+                    break
+        if cj is None:
+            return True
+    dd = None
+    for k in range(PARAMS.get("mind", 2), PARAMS.get("maxd", 12) + 1):
+        if d == k:
+            dd = k
+            break
+    if dd is None:
+        return True
+    with NoTracing():
+        import io
+        from pysmt.smtlib.printers import SmtDagPrinter
+        from pysmt.smtlib.parser import SmtLibParser
+        from pysmt.smtlib.script import smtlibscript_from_formula
+        env = new_env(dict_model=False)
+        m = env.formula_manager
+        L = leaves(env)
+        ops = nest_ops(env)
+        srt = ops[ci][1]
+        leaf = {"B": L["a"], "I": L["i"], "R": L["r"], "S": L["u"], "V": L["x"], "A": L["m"]}[srt]
+        other = {"B": L["b"], "I": L["j"], "R": L["s"], "S": L["v"], "V": L["y"], "A": L["m"]}[srt]
+        t = leaf
+        for k in range(dd):
+            b = ops[ci][2] if k % 2 == 0 else ops[cj][2]
+            t = b(t, t)            # full sharing: the tree is exponential, the DAG linear
+        f = t if srt == "B" else m.Equals(t, other)
+        ok = True
+        why = ""
+        try:
+            def work():
+                buf = io.StringIO()
+                SmtDagPrinter(buf).printer(f)
+                return buf.getvalue()
+            text = with_time_budget(work, 20)
+            n = dag_nodes(f)
+            if mode != "cross-roundtrip" and len(text) > 120 * n + 400:
+                ok, why = False, "DAG printer wrote %d characters for a DAG of %d nodes" % (len(text), n)
+            if ok and mode != "cross-size" and names[ci][0] != "pow" and names[cj][0] != "pow":
+                decl = "".join("(declare-fun %s %s)\n" % (s.symbol_name(), s.symbol_type().as_smtlib()) for s in f.get_free_variables())
+                c, g = with_time_budget(lambda: counted(lambda: SmtLibParser(env).get_script(io.StringIO(decl + "(assert %s)" % text)).get_last_formula(),
+                                                        40 * (24 * n + 60)), 20)
+                if g is not f:
+                    ok, why = False, "parse(print(f)) is not f"
+                elif mode == "plain" and c.creates > 16 * n + 60:
+                    ok, why = False, "parser made %d node constructions for a DAG of %d nodes" % (c.creates, n)
+        except Budget as e:
+            ok, why = False, "budget: %s" % e
+        PARAMS["_why"] = why
+    if twin:
+        return False
+    return ok
+
+
+def h_nest(oi: int, oj: int, d: int) -> bool:
+    """
+    post: _
+    """
+    return nest_body(oi, oj, d, False)
+
+
+def h_nest_twin(oi: int, oj: int, d: int) -> bool:
+    """
+    post: _
+    """
+    return nest_body(oi, oj, d, True)
